@@ -142,7 +142,7 @@ def do_import(src, sid):
         props = meta.get('check_with') or [meta['property']]
         res = run_checks(scratch, props, 'quick', 8)
         meta['detected'] = {'quick': res}
-        if not any(r['caught'] for r in res.values()):
+        if not any(r['caught'] for r in res.values()) and os.environ.get('SEEDED_THOROUGH', '1') != '0':
             res2 = run_checks(scratch, props, 'thorough', 16)
             meta['detected']['thorough'] = res2
         with open(os.path.join(d, 'meta.json'), 'w') as f:
@@ -158,7 +158,8 @@ def do_import(src, sid):
             q = any(r['caught'] for r in meta['detected']['quick'].values())
             t = any(r['caught'] for r in meta['detected'].get('thorough', {}).values())
             first[sid] = ('caught (quick)' if q else 'quick missed, thorough caught' if t
-                          else 'missed (quick+thorough)')
+                          else 'missed (quick+thorough)' if 'thorough' in meta['detected']
+                          else 'missed (quick; thorough not run)')
             with open(flog, 'w') as f:
                 json.dump(first, f, indent=1, sort_keys=True)
         status = {t: {p: ('CAUGHT' if r['caught'] else f"missed rc={r['rc']}")
